@@ -1,5 +1,6 @@
 import PGM.Proofs.GbpFixedFlat
 import PGM.Proofs.GbpFixedShape
+import PGM.Proofs.GbpFixedChain
 /-!
 # C16F — generalised (region-graph) propagation at a fixed point
 
@@ -46,12 +47,14 @@ are `1` on cliques and `−multiplicity` on separators); (b) consistency along *
 pair clique ⊇ separator — in the pruned (`minimal`) graph this needs the common-ancestor classes of `minEdges`
 (`DS.find` = connected components), which is not available; (c) a leaf-peeling induction over the RIP order with
 `sumOver` over unions of attribute lists (the two-clique proof is its base step).
-**Chains** `C₁ – … – Cₙ` with pairwise disjoint separators (two-level region graph) are also open.  Note that there
-`D` is empty but `N` is **not**: `N[Cᵢ,Sᵢ] = {(Cᵢ₋₁,Sᵢ₋₁)}` (`exChain2_N` below), so a fixed point is the junction-tree
-(Shafer–Shenoy) recursion `m[Cᵢ→Sᵢ] = log Σ_{Cᵢ∖Sᵢ} exp(θᵢ + m[Cᵢ₋₁→Sᵢ₋₁]) − c`.  Planned route: the invariant
-`Σ_{U∖S} exp(Θ) = K·exp(m[C→S])` for the attributes `U` and log-potential `Θ` behind a message (base = the edge equation
-with `N = D = ∅`, step = the edge equation with `N = {one message}` + `sumOver_split` over `dom.attrs.filter`), applied
-from both ends, and `two_clique_claim` generalised to a belief with two incoming messages.  Also open: the saturated branch
+**Chains** `C₁ – … – Cₙ` with pairwise disjoint separators (two-level region graph) are **proved**, for any length
+(section 2'): there `D` is empty but `N` is not — `N[Cᵢ,Sᵢ] = {(Cᵢ₋₁,Sᵢ₋₁)}` (`exChain2_N`) — so a fixed point is the
+junction-tree (Shafer–Shenoy) recursion `m[Cᵢ→Sᵢ] = log Σ_{Cᵢ∖Sᵢ} exp(θᵢ + m[Cᵢ₋₁→Sᵢ₋₁]) − c`; the invariant
+`Σ_{U∖S} exp(Θ) = K·exp(m[C→S])` (`behind_of_fwd`) is carried along derivations `Fwd` from both ends and
+`gbp_fixed_point_exact_chain_end` / `_mid` give the exact marginals of end and interior cliques (hypotheses: the `N`, `D`,
+`B` sets of the cliques involved, `decide`d on `AB – BC – CD`, where an explicit fixed point `exM4` is built by the
+recursion).  Not packaged: a single statement quantified over a list `C₁ … Cₙ` (the derivations are supplied per clique),
+and the separator tables of a chain (they follow from item 1 as in `…_two_cliques_separator`).  Also open: the saturated branch
 (`minimal = false`), whose `N`/`D`/`B` sets are defined differently (`msgSetsSat`).
 -/
 namespace PGM.C16F
@@ -321,6 +324,67 @@ theorem gbp_stationary_exact_two_cliques (dom : Dom) (g : RG.Graph) (pots : Cliq
   rw [gbp_table dom g pots T n0 m0 c1 hc1']
   exact this
 
+/-! ## 2'. exactness on chains (two-level region graphs, any length)
+
+A chain is described by derivations `GbpFixed.Fwd g pot e q Θ` — "the message of edge `e = (C, S)` is fed by a path of
+cliques": `base` for an end clique (`N[e] = D[e] = ∅`), `step` for `N[e] = {e'}`, `D[e] = ∅` with the previous separator
+inside `C` and the running-intersection condition; `q` marks the attributes of the cliques behind `e`, `Θ` is the sum
+of their potentials.  For `C₁ – … – Cₙ` the forward derivations are `base (C₁,S₁)`, `step (C₂,S₂)`, … and the backward
+ones `base (Cₙ,Sₙ₋₁)`, `step (Cₙ₋₁,Sₙ₋₂)`, …; an end clique has one incoming message, an interior clique two. -/
+
+theorem potOf_eq (dom : Dom) (g : RG.Graph) (pots : CliqueVec ℝ) (r : Region) (hr : r ∈ g.cliques) :
+    potOf dom g pots r = pots.get r := by
+  unfold potOf; rw [if_pos (List.contains_iff_mem.mpr hr)]
+
+/-- **an end clique of a chain**: `B[c0] = {e1}`, the other cliques are behind `e1` -/
+theorem gbp_fixed_point_exact_chain_end (dom : Dom) (g : RG.Graph) (pots : CliqueVec ℝ) (T : ℝ) (m : Msgs ℝ)
+    (h : Hyp dom g (potOf dom g pots) m) (hfix : SemFixed dom g (potOf dom g pots) m) (hT : 0 < T)
+    (cliques : List Region) (hG : LbpTree.GraphOK dom cliques pots)
+    (c0 : Region) (hc : c0 ∈ cliques) (hc0 : c0 ∈ g.regions) (hc0' : c0 ∈ g.cliques)
+    (e1 : Edge) (q1 : Attr → Bool) (Θ1 : (Attr → Nat) → ℝ) (hf : Fwd g (potOf dom g pots) e1 q1 Θ1)
+    (hB : look g.B c0 = [e1]) (hs1 : ∀ a ∈ e1.2, a ∈ c0) (hrip : ∀ a, q1 a = true → a ∈ c0 → a ∈ e1.2)
+    (hjoint : ∀ τ, LbpTree.logJoint cliques pots τ = (potOf dom g pots c0).sem τ + Θ1 τ)
+    (σ : Attr → Nat) (hσ : dom.Valid σ) :
+    ((RG.gbp dom g pots T 0 m).1.get c0).sem σ
+      = T * LbpTree.marginalR dom cliques pots c0 σ / LbpTree.partitionR dom cliques pots := by
+  have hpos : Oracle.PosDom dom := fun p hp => (h.pos p hp).ne'
+  obtain ⟨K, hK⟩ := chain_end_claim h hfix hc0 hf hB hs1 hrip
+  obtain ⟨b1, b2⟩ := beliefOf_ok h hc0
+  rw [gbp_table dom g pots T 0 m c0 hc0']
+  show (normalise T (beliefOf g (potOf dom g pots) m c0)).sem σ = _
+  apply LbpTree.exact_of_claim dom cliques pots hG hpos T hT c0 hc _ b1.1 b1.2 ⟨K, ?_⟩ σ hσ
+  intro τ hτ
+  rw [b2 τ hτ, ← hK τ hτ]
+  unfold LbpTree.marginalR
+  simp only [hjoint]
+
+/-- **an interior clique of a chain**: `B[c0] = {e1, e2}`; the cliques behind `e1` and those behind `e2` only share
+attributes of `c0` -/
+theorem gbp_fixed_point_exact_chain_mid (dom : Dom) (g : RG.Graph) (pots : CliqueVec ℝ) (T : ℝ) (m : Msgs ℝ)
+    (h : Hyp dom g (potOf dom g pots) m) (hfix : SemFixed dom g (potOf dom g pots) m) (hT : 0 < T)
+    (cliques : List Region) (hG : LbpTree.GraphOK dom cliques pots)
+    (c0 : Region) (hc : c0 ∈ cliques) (hc0 : c0 ∈ g.regions) (hc0' : c0 ∈ g.cliques)
+    (e1 e2 : Edge) (q1 q2 : Attr → Bool) (Θ1 Θ2 : (Attr → Nat) → ℝ)
+    (hf1 : Fwd g (potOf dom g pots) e1 q1 Θ1) (hf2 : Fwd g (potOf dom g pots) e2 q2 Θ2)
+    (hB : (look g.B c0).Perm [e1, e2])
+    (hs1 : ∀ a ∈ e1.2, a ∈ c0) (hrip1 : ∀ a, q1 a = true → a ∈ c0 → a ∈ e1.2)
+    (hs2 : ∀ a ∈ e2.2, a ∈ c0) (hrip2 : ∀ a, q2 a = true → a ∈ c0 → a ∈ e2.2)
+    (hdisj : ∀ a, q1 a = true → q2 a = true → a ∈ c0)
+    (hjoint : ∀ τ, LbpTree.logJoint cliques pots τ = (potOf dom g pots c0).sem τ + Θ1 τ + Θ2 τ)
+    (σ : Attr → Nat) (hσ : dom.Valid σ) :
+    ((RG.gbp dom g pots T 0 m).1.get c0).sem σ
+      = T * LbpTree.marginalR dom cliques pots c0 σ / LbpTree.partitionR dom cliques pots := by
+  have hpos : Oracle.PosDom dom := fun p hp => (h.pos p hp).ne'
+  obtain ⟨K, hK⟩ := chain_mid_claim h hfix hc0 hf1 hf2 hB hs1 hrip1 hs2 hrip2 hdisj
+  obtain ⟨b1, b2⟩ := beliefOf_ok h hc0
+  rw [gbp_table dom g pots T 0 m c0 hc0']
+  show (normalise T (beliefOf g (potOf dom g pots) m c0)).sem σ = _
+  apply LbpTree.exact_of_claim dom cliques pots hG hpos T hT c0 hc _ b1.1 b1.2 ⟨K, ?_⟩ σ hσ
+  intro τ hτ
+  rw [b2 τ hτ, ← hK τ hτ]
+  unfold LbpTree.marginalR
+  simp only [hjoint]
+
 /-! ## satisfiability: the graph `A-B / B-C / B`, and a chain with nested separators -/
 
 def exDom : Dom := [("A", 2), ("B", 3), ("C", 2)]
@@ -431,5 +495,89 @@ example (dom : Dom) (pots : CliqueVec ℝ) (T : ℝ) (m0 : Msgs ℝ) (iters : Na
   gbp_stationary dom _ pots T m0 0 iters (by
     show gbpSweep _ _ m0 = m0
     rfl) (Nat.zero_le _)
+
+/-! ### the chain `AB – BC – CD`: an explicit fixed point by the junction-tree recursion, exact tables -/
+
+def exDom4 : Dom := [("A", 2), ("B", 3), ("C", 2), ("D", 2)]
+theorem exDom4_wf : exDom4.WF := by decide
+theorem exDom4_pos : ∀ p ∈ exDom4, 0 < p.2 := by decide
+theorem exChain2_regs : ∀ r ∈ exChain2.regions, RegOK exDom4 r := by
+  have h : ∀ r ∈ exChain2.regions, r.Nodup ∧ ∀ a ∈ r, a ∈ exDom4.attrs := by decide
+  exact h
+theorem exChain2_cliques : ∀ r ∈ exChain2.regions, r ∈ exChain2.cliques := by decide
+theorem exChain2_depth : ∀ e ∈ exChain2.messageOrder, ∀ k ∈ look exChain2.N e,
+    k ∈ exChain2.messageOrder ∧ look exChain2.N k = [] ∧ look exChain2.D k = [] := by decide
+
+noncomputable def exPots4 : CliqueVec ℝ := exChain2.regions.map (fun r => (r, Factor.zeros (exDom4.project r)))
+theorem exPots4_get (r : Region) (hr : r ∈ exChain2.regions) : exPots4.get r = Factor.zeros (exDom4.project r) :=
+  cv_get_map_key exChain2.regions _ r hr
+theorem exPots4_on : ∀ r ∈ exChain2.regions, On exDom4 r (potOf exDom4 exChain2 exPots4 r) := by
+  intro r hr
+  rw [potOf_eq _ _ _ r (exChain2_cliques r hr), exPots4_get r hr]
+  exact zeros_on (exChain2_regs r hr)
+
+/-- the state after two un-damped updates from the empty state -/
+noncomputable def exM4 : Msgs ℝ :=
+  newDict exChain2 (potOf exDom4 exChain2 exPots4) (newDict exChain2 (potOf exDom4 exChain2 exPots4) [])
+
+/-- it satisfies the hypotheses of all theorems: layout and (cell-wise) fixed point -/
+theorem exM4_fixed : Hyp exDom4 exChain2 (potOf exDom4 exChain2 exPots4) exM4 ∧
+    SemFixed exDom4 exChain2 (potOf exDom4 exChain2 exPots4) exM4 := by
+  have hb := buildOn_ok [["A", "B"], ["B", "C"], ["C", "D"], ["B"], ["C"]] false true (by decide)
+  exact depth2_fixed ⟨exDom4_wf, exChain2_regs, exPots4_on, hb.children_sub, hb.parents_dual⟩ exDom4_pos
+    (shape_buildOn _ (by decide) (by decide)) exChain2_depth
+
+theorem exG4 : LbpTree.GraphOK exDom4 [["A", "B"], ["B", "C"], ["C", "D"]] exPots4 := by
+  refine ⟨exDom4_wf, by decide, ?_, ?_, ?_⟩
+  · intro cl hcl; exact (exChain2_regs cl (by revert cl; decide)).1
+  · intro cl hcl; exact (exChain2_regs cl (by revert cl; decide)).2
+  · intro cl hcl
+    have hr : cl ∈ exChain2.regions := by revert cl; decide
+    rw [exPots4_get cl hr]
+    exact zeros_on (exChain2_regs cl hr)
+
+theorem rip_of_bounded {q : Attr → Bool} {c0 s : Region} (h : ∀ a ∈ c0, q a = true → a ∈ s) :
+    ∀ a, q a = true → a ∈ c0 → a ∈ s := fun a hq hc => h a hc hq
+
+/-- `gbp_fixed_point_exact_chain_mid`: the interior clique `BC` (incoming `AB → B` and `CD → C`, both `base`) -/
+example (T : ℝ) (hT : 0 < T) (σ : Attr → Nat) (hσ : exDom4.Valid σ) :
+    ((RG.gbp exDom4 exChain2 exPots4 T 0 exM4).1.get ["B", "C"]).sem σ
+      = T * LbpTree.marginalR exDom4 [["A", "B"], ["B", "C"], ["C", "D"]] exPots4 ["B", "C"] σ
+          / LbpTree.partitionR exDom4 [["A", "B"], ["B", "C"], ["C", "D"]] exPots4 :=
+  gbp_fixed_point_exact_chain_mid exDom4 exChain2 exPots4 T exM4 exM4_fixed.1 exM4_fixed.2 hT _ exG4
+    ["B", "C"] (by decide) (by decide) (by decide) (["A", "B"], ["B"]) (["C", "D"], ["C"]) _ _ _ _
+    (Fwd.base _ (by decide) (by decide) (by decide)) (Fwd.base _ (by decide) (by decide) (by decide))
+    (by decide) (by decide) (rip_of_bounded (by decide)) (by decide) (rip_of_bounded (by decide))
+    (fun a h1 h2 => (by decide : ∀ a ∈ ["A", "B"], (["C", "D"].contains a) = true → a ∈ ["B", "C"]) a
+      (List.contains_iff_mem.mp h1) h2)
+    (fun τ => by
+      rw [potOf_eq _ _ _ _ (by decide : ["B", "C"] ∈ exChain2.cliques)]
+      show LbpTree.logJoint _ _ τ = _ + (potOf exDom4 exChain2 exPots4 ["A", "B"]).sem τ
+        + (potOf exDom4 exChain2 exPots4 ["C", "D"]).sem τ
+      rw [potOf_eq _ _ _ _ (by decide : ["A", "B"] ∈ exChain2.cliques),
+        potOf_eq _ _ _ _ (by decide : ["C", "D"] ∈ exChain2.cliques)]
+      unfold LbpTree.logJoint
+      simp only [List.map_cons, List.map_nil, List.sum_cons, List.sum_nil]
+      ring) σ hσ
+
+/-- `gbp_fixed_point_exact_chain_end`: the end clique `AB` (incoming `BC → B`, a `step` after `CD → C`) -/
+example (T : ℝ) (hT : 0 < T) (σ : Attr → Nat) (hσ : exDom4.Valid σ) :
+    ((RG.gbp exDom4 exChain2 exPots4 T 0 exM4).1.get ["A", "B"]).sem σ
+      = T * LbpTree.marginalR exDom4 [["A", "B"], ["B", "C"], ["C", "D"]] exPots4 ["A", "B"] σ
+          / LbpTree.partitionR exDom4 [["A", "B"], ["B", "C"], ["C", "D"]] exPots4 :=
+  gbp_fixed_point_exact_chain_end exDom4 exChain2 exPots4 T exM4 exM4_fixed.1 exM4_fixed.2 hT _ exG4
+    ["A", "B"] (by decide) (by decide) (by decide) (["B", "C"], ["B"]) _ _
+    (Fwd.step (["B", "C"], ["B"]) (["C", "D"], ["C"]) _ _ (Fwd.base _ (by decide) (by decide) (by decide))
+      (by decide) (by decide) (by decide) (by decide) (rip_of_bounded (by decide)))
+    (by decide) (by decide) (rip_of_bounded (by decide))
+    (fun τ => by
+      rw [potOf_eq _ _ _ _ (by decide : ["A", "B"] ∈ exChain2.cliques)]
+      show LbpTree.logJoint _ _ τ = _ + ((potOf exDom4 exChain2 exPots4 ["C", "D"]).sem τ
+        + (potOf exDom4 exChain2 exPots4 ["B", "C"]).sem τ)
+      rw [potOf_eq _ _ _ _ (by decide : ["B", "C"] ∈ exChain2.cliques),
+        potOf_eq _ _ _ _ (by decide : ["C", "D"] ∈ exChain2.cliques)]
+      unfold LbpTree.logJoint
+      simp only [List.map_cons, List.map_nil, List.sum_cons, List.sum_nil]
+      ring) σ hσ
 
 end PGM.C16F
